@@ -25,7 +25,19 @@ import (
 func c11Placeholder(r *fw.Rand) ref.Node {
 	a, b := &ref.DataRef{Name: "a"}, &ref.DataRef{Name: "b"}
 	one, two := &ref.Lit{V: ref.Int(1)}, &ref.Lit{V: ref.Int(2)}
-	switch r.Intn(18) {
+	switch r.Intn(24) {
+	case 21: // bracket access with keys that are not identifiers
+		return &ref.Print{E: &ref.DataRef{Name: "m", Acc: []ref.Acc{{Kind: 2, Arg: &ref.Lit{V: ref.Str("first-name")}}}}}
+	case 22:
+		return &ref.Print{E: &ref.DataRef{Name: "m", Acc: []ref.Acc{{Kind: 2, Arg: &ref.Lit{V: ref.Str("a b")}}}}}
+	case 23:
+		return &ref.Print{E: &ref.DataRef{Name: "m", Acc: []ref.Acc{{Kind: 2, Arg: &ref.Lit{V: ref.Str("s")}}}}}
+	case 18: // calls that differ only inside a content param are different placeholders
+		return &ref.CallT{Target: "c11.callee", NameSrc: ".callee", Params: []ref.Param{{Name: "p", IsContent: true, Content: []ref.Node{&ref.Raw{Text: "yes, "}, &ref.Print{E: &ref.DataRef{Name: "s"}}}}}}
+	case 19:
+		return &ref.CallT{Target: "c11.callee", NameSrc: ".callee", Params: []ref.Param{{Name: "p", IsContent: true, Content: []ref.Node{&ref.Raw{Text: "no"}}}}}
+	case 20:
+		return &ref.CallT{Target: "c11.callee", NameSrc: ".callee", Params: []ref.Param{{Name: "p", IsContent: true, Content: []ref.Node{&ref.Raw{Text: "yes, "}, &ref.Print{E: &ref.DataRef{Name: "t"}}}}}}
 	case 15: // ... and so is the same expression under the same directive with other arguments
 		return &ref.Print{E: &ref.DataRef{Name: "s"}, Dirs: []ref.Dir{{Name: "truncate", Args: []ref.Expr{&ref.Lit{V: ref.Int(int64(3 + r.Intn(2)))}}}}}
 	case 16:
@@ -406,6 +418,23 @@ func init() {
 				}
 			}
 			if ambiguous {
+				// (several calls in one message: the official names are not pinned down, so extraction is not compared.)
+				// What does not depend on names is still judged: a catalogue holding each message's own text changes nothing.
+				if reg, cerr := compileRegistry(files, nil); cerr == nil {
+					ls := ref.Value{K: ref.KList, ID: 41}
+					d := map[string]ref.Value{"a": ref.Int(7), "b": ref.Int(3), "n": ref.Int(2), "s": ref.Str("S<0>"), "t": ref.Str("T&t"),
+						"m": ref.MapOf("a", ref.Int(40), "s", ref.Str("ms\""), "first-name", ref.Str("fn<"), "a b", ref.Int(12)), "l": ls}
+					tofu := soyhtml.NewTofu(reg)
+					plain, perr := render(tofu, "c11.main", d, nil, nil)
+					under, uerr := render(tofu, "c11.main", d, nil, identityCatalogue(reg))
+					if perr == nil {
+						ctx.Obs("identity_compared_call_twins", 1)
+						if uerr != nil || under != plain {
+							return fw.Result{Verdict: fw.Violated, Key: "identity-translation-differs:several-calls", Case: map[string]interface{}{"files": files, "data": goData(d)},
+								Msg: fmt.Sprintf("a message with several calls, rendered from the source %q and from a catalogue holding its own text %q (err %v)", fw.Trim(plain, 300), fw.Trim(under, 300), uerr)}
+						}
+					}
+				}
 				return fw.Result{Verdict: fw.Skip}
 			}
 			dir, err := os.MkdirTemp("", "c11")
@@ -583,7 +612,7 @@ func init() {
 					ls.L = append(ls.L, ref.Int(100+q))
 				}
 				d := map[string]ref.Value{"a": ref.Int(7 + int64(dk)), "b": ref.Int(3), "n": ref.Int(n), "s": ref.Str("S<" + strconv.Itoa(dk) + ">"), "t": ref.Str("T&t"),
-					"m": ref.MapOf("a", ref.Int(40+int64(dk)), "s", ref.Str("ms\"")), "l": ls}
+					"m": ref.MapOf("a", ref.Int(40+int64(dk)), "s", ref.Str("ms\""), "first-name", ref.Str("fn<"), "a b", ref.Int(12)), "l": ls}
 				cd := map[string]interface{}{"files": files, "po": pof.String(), "locale": loc.name, "catalogue": kind, "data": goData(d), "pot": stdout.String()}
 				plain, perr := render(tofu, "c11.main", d, nil, nil)
 				if perr != nil {
